@@ -178,8 +178,13 @@ package bam
 //@   requires m != nil && len(m.readers) > 0 && readersOK(m) && m.less == nil
 //@   modifies all(m), objects(reader), objects(Reader), objects(sam.Record), arrays(*reader)
 //@   ghost rerr error
-//@   at stmt "rec, err = m.readers[0].r.Read()" ghost rerr = ret1
+//@   ghost grec *sam.Record
+//@   ghost gref *sam.Reference
+//@   ghost gid int
+//@   at entry ghost gid = m.readers[0].id
+//@   at stmt "rec, err = m.readers[0].r.Read()" ghost rerr = ret1; grec = ret0; gref = ret0.Ref
 //@   ensures[C18] @reported (rerr != nil && rerr != io.EOF) ==> result1 != nil
+//@   ensures[C18] @relinked (m.refLinks != nil && grec != nil && gref != nil) ==> (result0 == grec && grec.Ref == m.refLinks[gid][int(gref.id)])
 
 // The heap operations go through container/heap and the package's own
 // Push/Pop/Less/Swap methods; they are assumed to move readers between the
@@ -210,7 +215,13 @@ package bam
 //@   modifies all(m), objects(reader), objects(Reader), objects(sam.Record), arrays(*reader)
 //@   ghost rerr error
 //@   at stmt "reader.head, reader.err = reader.r.Read()" ghost rerr = reader.err
+//@   ghost gr *reader
+//@   ghost gref *sam.Reference
+//@   ghost gmate *sam.Reference
+//@   at stmt "reader := m.pop()" ghost gr = ret; gref = ret.head.Ref; gmate = ret.head.MateRef
 //@   ensures[C18] @reported (rerr != nil && rerr != io.EOF) ==> result1 != nil
+//@   ensures[C18] @relinked (m.refLinks != nil && gref != nil) ==> result0.Ref == m.refLinks[gr.id][int(gref.id)]
+//@   ensures[C18] @materelinked (m.refLinks != nil && gmate != nil) ==> result0.MateRef == m.refLinks[gr.id][int(gmate.id)]
 //@   ensures[C18] @heads headsOK(m)
 //@   ensures[C18] @record result0 != nil
 
